@@ -31,7 +31,7 @@ NA = -999999999
 DEFAULT_CONC = {"unit": 1.0, "off": 0, "tbase": 1577836800,  # 2020-01-01T00:00:00
                 "xc": "f64", "ac": "f64", "tc": "dt64ns", "spanc": "list", "pc": "kw"}
 
-DATA_CARRIERS = ["list_none", "list_nan", "tuple_nan", "f64", "f32", "i64", "i32", "u16", "ma_i64", "ma_i64far", "series_f32", "ma_f32", "ma_nan", "ma_junk", "ma_mixed", "series_shuf",
+DATA_CARRIERS = ["list_none", "list_nan", "tuple_nan", "f64", "f32", "i64", "i32", "u16", "ma_i64", "ma_i64far", "ma_fill", "series_f32", "ma_f32", "ma_nan", "ma_junk", "ma_mixed", "series_shuf",
                  "series", "series_idx", "dask"]
 TIME_CARRIERS = ["dt64ns", "dt64us", "dt64ms", "dt64s", "pydt", "pdts", "dtindex", "series_naive",
                  "series_utc", "dtindex_utc", "series_utc_us", "dtindex_utc_s", "dtindex_us", "epoch_list", "epoch_i64", "epoch_f64"]
@@ -78,6 +78,14 @@ def carry_data(vals, carrier, conc=None, f=None):
         if any(v == NA for v in vals) or any(float(x) != int(x) or x < 0 or x > 65535 for x in fl):
             return np.array(fl, dtype=np.float64)
         return np.array([int(x) for x in fl], dtype=np.uint16)
+    if carrier == "ma_fill":
+        # a masked array whose fill_value equals one of its PRESENT values (a fill value is not a missing marker)
+        pres = [x for x, v in zip(fl, vals) if v != NA]
+        a = np.ma.MaskedArray(np.array([(pres[0] if pres else 0.0) if v == NA else x for x, v in zip(fl, vals)], dtype=np.float64),
+                              mask=[v == NA for v in vals])
+        if pres:
+            a.fill_value = pres[-1]
+        return a
     if carrier == "ma_i64far":
         if any(float(x) != int(x) for x, v in zip(fl, vals) if v != NA):
             return np.ma.MaskedArray(np.array([1234.5 if v == NA else x for x, v in zip(fl, vals)], dtype=np.float64),
